@@ -246,6 +246,10 @@ func (maps *trackedMaps) processUnfiltered(ctx context.Context, ef *Filter, filt
 				if err := ef.filterValue(ctx, f, classificationTag, opt...); err != nil {
 					return fmt.Errorf("%s: unable to filter string: %w", op, err)
 				}
+				if fPtr {
+					// the map holds a pointer to the string: it still does
+					f = f.Addr()
+				}
 				v.SetMapIndex(key, f)
 
 			case ftype == reflect.TypeOf([]uint8{}):
@@ -253,6 +257,10 @@ func (maps *trackedMaps) processUnfiltered(ctx context.Context, ef *Filter, filt
 				f := reflect.Indirect(reflect.ValueOf(&s))
 				if err := ef.filterValue(ctx, f, classificationTag, opt...); err != nil {
 					return fmt.Errorf("%s: unable to filter []byte: %w", op, err)
+				}
+				if fPtr {
+					// the map holds a pointer to the []byte: it still does
+					f = f.Addr()
 				}
 				v.SetMapIndex(key, f)
 
